@@ -990,6 +990,12 @@ func (o *ovsdbClient) monitor(ctx context.Context, cookie MonitorCookie, reconne
 	} else {
 		args = ovsdb.NewMonitorArgs(dbName, cookie, requests)
 	}
+	switch monitor.Method {
+	case ovsdb.MonitorRPC, ovsdb.ConditionalMonitorRPC, ovsdb.ConditionalMonitorSinceRPC:
+	default:
+		return fmt.Errorf("unsupported monitor method: %v", monitor.Method)
+	}
+
 	// Notifications can overtake the reply to this request: buffer them until
 	// the initial contents have been applied. That also holds for an additional
 	// monitor on a connection whose first monitor was populated long ago.
@@ -1018,8 +1024,6 @@ func (o *ovsdbClient) monitor(ctx context.Context, cookie MonitorCookie, reconne
 			lastTransactionFound = true
 		}
 		tableUpdates = reply.Updates
-	default:
-		return fmt.Errorf("unsupported monitor method: %v", monitor.Method)
 	}
 
 	if err != nil {
@@ -1078,6 +1082,13 @@ func (o *ovsdbClient) monitor(ctx context.Context, cookie MonitorCookie, reconne
 	}
 
 	if err != nil {
+		if !reconnecting {
+			// the initial contents could not be applied: do not go on buffering
+			// notifications for ever (a failed reconnect is retried instead)
+			if rerr := db.applyDeferredUpdates(cookie); rerr != nil {
+				return fmt.Errorf("%v (and applying the notifications buffered meanwhile failed: %v)", err, rerr)
+			}
+		}
 		return err
 	}
 
